@@ -295,8 +295,10 @@ def nest_family(exe, fam, per_level, fixed, moderate, quick):
     if overflows(dmax):
         top = bisect_first(overflows, 1, dmax)
         out["stack_overflow_threshold"] = top
-        out["stack_overflow_probe"] = probe(exe, fam, top, env=fast)
-        top -= 1
+        # the exact threshold moves by a few levels from run to run (stack randomisation): the replay uses a margin
+        out["stack_overflow_replay_depth"] = min(dmax, top + max(64, top // 50))
+        out["stack_overflow_probe"] = probe(exe, fam, out["stack_overflow_replay_depth"], env=fast)
+        top -= max(8, top // 200)
     else:
         out["stack_overflow_threshold"] = None
     slow = {"C11_CPU_BASE": "60", "C11_CPU_PER_MIB": "0", "C11_NO_EXERCISE": "1"}
@@ -402,7 +404,7 @@ def run_witnesses(ctx, exe_rel, quick, seen):
             p = r["stack_overflow_probe"]
             report({"reader": rd, "class": "stack-overflow-deep-nesting"},
                    "%s reader overflows the 8 MiB stack on %d nested collections (%d bytes of input; %d levels are still read)" % (rd, th, p["len"], th - 1),
-                   {"family": fam, "param": th, "reader": p.get("reader"), "len": p["len"], "impl": "crash " + p.get("detail", ""), "threshold_depth": th,
+                   {"family": fam, "param": r["stack_overflow_replay_depth"], "reader": p.get("reader"), "len": p["len"], "impl": p["class"] + " " + p.get("detail", ""), "threshold_depth": th,
                     "theorem": "depth_unbounded / wkt_depth_unbounded: the model needs recursion depth proportional to the input length"})
         ov = r.get("time_budget_exceeded_from_depth")
         if ov:
@@ -495,7 +497,7 @@ def run(ctx):
     pool = ThreadPoolExecutor(max_workers=1)
     wit_future = pool.submit(run_witnesses, ctx, exe_r, quick, seen)
     shards = max(4, min(verif.NPROC - 2, 14))
-    n = 24000 if quick else 330000
+    n = 16000 if quick else 300000
     maxlen = 65536 if quick else MIB
     corr = {}
     for stream in STREAMS:
